@@ -151,6 +151,7 @@ Proof.
     + rewrite Eminf, Fi. reflexivity.
     + rewrite Emaxf, Fi. reflexivity.
     + rewrite Fi. constructor.
+    + unfold counters_fit, true_samples, true_bytes. rewrite Fi. cbn. split; reflexivity.
   - unfold encoder_new in H.
     apply bind_ok in H. destruct H as ([] & _ & H).
     apply bind_ok in H. destruct H as (bl & Hbl & H).
